@@ -1,3 +1,5 @@
 SPECIFICATION TSpec
-CONSTANT Writes = "none"
+CONSTANTS
+  Writes = "none"
+  FullMasks = TRUE
 INVARIANT Finished
